@@ -5,6 +5,7 @@
    StructError (struct.pack(">I", n) with n >= 2^32) can only arise from OpenPGP headers of 4 GiB or more
    (C13_struct_error_needs_4GiB); the is_* predicates are total bool-valued functions by construction. *)
 From CCT Require Import Prelude Hex Num Time Formats Json Auth.
+From CCT.Gen Require Pins.
 From CCT.Gen Require Params.
 From CCT.proofs Require Import HexFacts SigFacts AuthFacts SignableFacts DelegationFacts RootFacts SchemaFacts FamilyFacts.
 Open Scope N_scope.
@@ -92,6 +93,51 @@ Example C13_witness :
   /\ verify_signable (fun _ _ _ => true) (fun b => b) (VList []) (VList []) (VInt 1) (VBool false) = Err TypeError.
 Proof. vm_compute. repeat split. Qed.
 
+(* BEGIN SOURCE PINS -- written by harness/mkpins.py; the list is what Gen/Pins.v held for the tree the model was validated against *)
+(* the functions of the package this property depends on (call-graph closure of its entry points), each with the fingerprint of its
+   logic (AST without docstrings, annotations, messages, local names): the model and the correspondence runs were validated against
+   exactly these; a change of logic in any of them breaks this obligation and the check then searches for a failing input *)
+Theorem C13_source_pinned : CCT.Gen.Pins.pinned_C13 =
+  [(U"authentication._ascii", U"5f6fc6aad21f14d47c4f");
+   (U"authentication.verify_delegation", U"5dc5b9065823f0f50085");
+   (U"authentication.verify_gpg_signature", U"ccbe2bc800d02410d16b");
+   (U"authentication.verify_root", U"6692242951185dc7604b");
+   (U"authentication.verify_signable", U"1bd56f9b4f5e7bcd88d9");
+   (U"authentication.verify_signature", U"7e0a2d567df7e9f0cdd4");
+   (U"common.MixinKey.from_hex", U"a6e4e81c0b16461490a5");
+   (U"common.MixinKey.is_equivalent_to", U"5700e1899e36ca2341bb");
+   (U"common.PrivateKey.from_bytes", U"2cb488fc935b61f65bba");
+   (U"common.PrivateKey.to_bytes", U"c9564ea6ce46886b972b");
+   (U"common.PublicKey.from_bytes", U"a439db0d070397bc2b47");
+   (U"common.PublicKey.to_bytes", U"1167c2299d20a5c711f2");
+   (U"common.canonserialize", U"64fc1dee1d7349d7a920");
+   (U"common.checkformat_any_signature", U"82ba0ed515a770fad8a9");
+   (U"common.checkformat_byteslike", U"1c9da61d15ff3a1a9f97");
+   (U"common.checkformat_delegating_metadata", U"b013c9fa5677f3b3f637");
+   (U"common.checkformat_delegation", U"25fc9c6692b07cdca131");
+   (U"common.checkformat_delegations", U"d6a7d445f5f827a1471c");
+   (U"common.checkformat_expiration_distance", U"65fe8ef409fef94d863f");
+   (U"common.checkformat_gpg_fingerprint", U"86e3bb7e4431fb481dc5");
+   (U"common.checkformat_gpg_signature", U"a3c5515ffb8c9f6183ba");
+   (U"common.checkformat_hex_key", U"625afdf8f56eb4c97143");
+   (U"common.checkformat_hex_string", U"eac17f8be3d488d4b8a0");
+   (U"common.checkformat_key", U"d3466826154e389f099e");
+   (U"common.checkformat_list_of_hex_keys", U"4c9121b74cf062a7e2fd");
+   (U"common.checkformat_natural_int", U"14f9984b8b7ef6014787");
+   (U"common.checkformat_signable", U"dbb8b00a3a3727e018da");
+   (U"common.checkformat_signature", U"d544854022da28dcc399");
+   (U"common.checkformat_string", U"a139d0a4113d71e93d9f");
+   (U"common.checkformat_utc_isoformat", U"6fed4a2332e7258f7147");
+   (U"common.is_gpg_fingerprint", U"fd061164635908ebd7f2");
+   (U"common.is_gpg_signature", U"f236e9c50126a7909e84");
+   (U"common.is_hex_key", U"63c7822022cd24f926e2");
+   (U"common.is_hex_signature", U"433f44075f931ec629d6");
+   (U"common.is_hex_string", U"35e6d253e0c21ac09fca");
+   (U"common.is_signable", U"6932517519189d75eb93");
+   (U"common.is_signature", U"cc04b1fcfd687d0beea7")].
+Proof. reflexivity. Qed.
+(* END SOURCE PINS *)
+
 Print Assumptions C13_families_meaning.
 Print Assumptions C13_validators_family.
 Print Assumptions C13_verify_signature_family.
@@ -105,3 +151,4 @@ Print Assumptions C13_undelegated_role_is_unknown_role_error.
 Print Assumptions C13_version_mismatch_is_metadata_verification_error.
 Print Assumptions C13_type_mismatch_is_metadata_verification_error.
 Print Assumptions C13_witness.
+Print Assumptions C13_source_pinned.
